@@ -276,6 +276,11 @@ def exec_swaps(bs, terms, offset, qn_size, via, algo, swaps, mpo=None):
     uses_qr = algo == "qr"
     n_ok = 0
     worst = 0.0
+    # dynamic range of the factors: the qr algorithm leaves rounding noise relative to the LARGEST factor, the library's internal
+    # assertions compare relative to the entry at hand; failures of those assertions are classified by this input class
+    mags = [abs(complex(L.term_factor(t))) for t in terms]
+    mags = [m for m in mags if m > 0] + ([abs(offset)] if offset else [])
+    wide = ":factor-range>=1e3" if (mags and max(mags) / min(mags) >= 1e3) else ""
     for idx, (i, salgo) in enumerate(swaps):
         new = list(cur)
         new[i], new[i + 1] = new[i + 1], new[i]
@@ -297,12 +302,14 @@ def exec_swaps(bs, terms, offset, qn_size, via, algo, swaps, mpo=None):
                     # Is the library's self-check right to object?  Repeat the same swap on the (unchanged)
                     # object with the self-check switched off and judge the result with the dense oracle.
                     verdict = retry_without_selfcheck(mpo, new, salgo, terms, offset, uses_qr or salgo == "qr")
-                    events.append((f"swap:{cls}:AssertionError@check_swap_consistency{hist}:{verdict}", idx, res))
+                    qrw = wide if (cls == "qr" or uses_qr) else ""
+                    events.append((f"swap:{cls}:AssertionError@check_swap_consistency{hist}:{verdict}{qrw}", idx, res))
                     if verdict == "spurious-result-correct-without-check":
                         cur = new
                         continue
                     return events, n_ok, worst
-                events.append((f"swap:{cls}:AssertionError@{fn}{hist}", idx, res))
+                qrw = wide if (cls == "qr" or uses_qr) else ""
+                events.append((f"swap:{cls}:AssertionError@{fn}{hist}{qrw}", idx, res))
             else:
                 events.append((f"swap:{cls}:exception:{type(e).__name__}", idx, res))
                 return events, n_ok, worst
